@@ -251,8 +251,8 @@ Proof.
     eapply frame_trans; [|apply frame_emit]. apply frame_write; auto.
   - apply frame_sched_self.
   - apply frame_set_err.
-  - apply frame_upd. intros x. repeat split.
-  - apply frame_upd. intros x. repeat split.
+  - destruct (is_list_entry _ _); [apply frame_refl|]. apply frame_upd. intros x. repeat split.
+  - destruct (is_list_entry _ _); [apply frame_refl|]. apply frame_upd. intros x. repeat split.
   - destruct (c_out _ && st) eqn:E; [|apply frame_refl].
     assert (st = true) by (apply andb_true_iff in E; tauto). subst st.
     destruct (n_val (node_at i g)); [|apply frame_emit].
@@ -324,7 +324,7 @@ Proof. intros H Ha. unfold ract. rewrite H, Ha. simpl. rewrite Nat.eqb_refl. ref
 
 Lemma ready_sink p s g : ready (sink_cfg p s) g = true <-> n_val (node_at p g) <> None.
 Proof.
-  unfold ready, sink_cfg, read_input; simpl.
+  unfold ready, sink_cfg, slot_valid, read_input; simpl.
   destruct (n_val (node_at p g)); simpl; split; intros; congruence.
 Qed.
 
@@ -454,9 +454,9 @@ Record base (t : Z) (x : xst) : Prop := {
 Lemma k_lt : (k < n)%nat.
 Proof. rewrite <- (wf_len WF). apply kind_lt. rewrite HK. discriminate. Qed.
 Lemma s_lt_k : (s < k)%nat.
-Proof. apply (wf_rank WF k (mkIn s false false) k_lt). fold (cfg k). rewrite HC. simpl. auto. Qed.
+Proof. apply (wf_rank WF k (mkIn s false false None false) k_lt). fold (cfg k). rewrite HC. simpl. auto. Qed.
 Lemma p_lt_k : (p < k)%nat.
-Proof. apply (wf_rank WF k (mkIn p true true) k_lt). fold (cfg k). rewrite HC. simpl. auto. Qed.
+Proof. apply (wf_rank WF k (mkIn p true true None false) k_lt). fold (cfg k). rewrite HC. simpl. auto. Qed.
 Lemma s_cfg : cfg s = source_cfg.
 Proof. apply (wf_source WF s init HS). Qed.
 
